@@ -59,6 +59,11 @@ func c19FlightShapes(g *gen, list func([]string) string) {
 		return strings.HasSuffix(exprText(ce.Fun), ".retrieveAndSaveFile")
 	})), "cacheTransport.get: getFlight.Do(stat the HEAD etag's file; else download), "+g.pos(fd))
 
+	// ---- fetchOffline: which directory entries are candidates -------------------------------
+	fd = findFunc("pkg/apk/apk/cache.go", "cacheTransport", "fetchOffline")
+	g.def("offline_filter", "list string", list(c19OfflineFilter(fd)),
+		"fetchOffline: entries skipped before the modification times are compared (`if <name has suffix S> { continue }` inside the loop over the directory), "+g.pos(fd))
+
 	// ---- apkCache.get -----------------------------------------------------------------
 	fd = findFunc("pkg/apk/apk/implementation.go", "apkCache", "get")
 	g.def("apk_cache_shape", "list string", list(c19OnceShape(fd)), "apkCache.get: sync.Once per key, what the once stores and what happens to a failed entry afterwards, "+g.pos(fd))
@@ -300,4 +305,55 @@ func isErrNotNilExpr(e ast.Expr) bool {
 		return strings.Contains(strings.ToLower(x.Sel.Name), "err")
 	}
 	return false
+}
+
+// c19OfflineFilter: inside a range loop of fetchOffline, `if strings.HasSuffix(<…>.Name(), "S") { continue }`
+// (or filepath.Ext(<…>.Name()) == "S") gives "skip-suffix:S". The loop over os.ReadDir's result must exist.
+func c19OfflineFilter(fd *ast.FuncDecl) []string {
+	if fd == nil || fd.Body == nil {
+		return nil
+	}
+	out := []string{}
+	loops := 0
+	ast.Inspect(fd.Body, func(n ast.Node) bool {
+		rs, ok := n.(*ast.RangeStmt)
+		if !ok {
+			return true
+		}
+		loops++
+		for _, st := range rs.Body.List {
+			is, ok := st.(*ast.IfStmt)
+			if !ok || len(is.Body.List) != 1 {
+				continue
+			}
+			if bs, ok := is.Body.List[0].(*ast.BranchStmt); !ok || bs.Tok != token.CONTINUE {
+				continue
+			}
+			switch c := is.Cond.(type) {
+			case *ast.CallExpr:
+				if exprText(c.Fun) == "strings.HasSuffix" && len(c.Args) == 2 && strings.HasSuffix(exprText(c.Args[0]), ".Name()") {
+					if lit, ok := strLit(c.Args[1]); ok {
+						out = append(out, "skip-suffix:"+lit)
+						continue
+					}
+				}
+				out = append(out, "skip:"+exprText(c))
+			case *ast.BinaryExpr:
+				if ce, ok := c.X.(*ast.CallExpr); ok && c.Op == token.EQL && exprText(ce.Fun) == "filepath.Ext" && len(ce.Args) == 1 && strings.HasSuffix(exprText(ce.Args[0]), ".Name()") {
+					if lit, ok := strLit(c.Y); ok {
+						out = append(out, "skip-suffix:"+lit)
+						continue
+					}
+				}
+				out = append(out, "skip:"+exprText(c))
+			default:
+				out = append(out, "skip:"+exprText(is.Cond))
+			}
+		}
+		return true
+	})
+	if loops == 0 {
+		fail("C19: fetchOffline no longer loops over the directory entries")
+	}
+	return out
 }
